@@ -9,6 +9,7 @@ import (
 	"os"
 	"path/filepath"
 	"sort"
+	"time"
 
 	"github.com/superfly/ltx"
 )
@@ -372,4 +373,23 @@ func ChainProblems(dbDir string, wantTXID, wantChk uint64) []string {
 		}
 	}
 	return out
+}
+
+// StableDiskImage reads the image of a LIVE node's database directory until two consecutive readings
+// agree. LiteFS's own goroutines (the checkpoint after a role change, recovery at halt release) may be
+// moving frames from the log into the database file at that moment; a reading that sees the file before
+// and the log after such a step is torn by the reader, not a state of the node.
+func StableDiskImage(dir string, pageSize uint32) (Image, error) {
+	prev, err := DiskImage(dir, pageSize)
+	for i := 0; i < 100; i++ {
+		time.Sleep(3 * time.Millisecond)
+		cur, cerr := DiskImage(dir, pageSize)
+		if cerr == nil && err == nil {
+			if ok, _ := cur.Equal(prev, 0); ok {
+				return cur, nil
+			}
+		}
+		prev, err = cur, cerr
+	}
+	return prev, err
 }
